@@ -102,6 +102,7 @@ class Contract:
         self.defaults = d.get("defaults", {})     # parameter defaults (must equal the source's; checked structurally)
         self.inv_exclude_pre = d.get("inv_exclude_pre", [])   # invariant clauses (by name prefix) not needed at entry
         self.assume_entry = d.get("assume_entry", {})
+        self.local_sorts = d.get("local_sorts", {})   # sorts of locals that start as empty containers
         self.probe = d.get("probe", False)         # known-finding probe: a variant verified WITHOUT a usage assumption
         self.probe_only = d.get("probe_only", [])  # ... of which only these obligations (substrings) are reported
         self.drop_callee_ensures = d.get("drop_callee_ensures", {})   # callee contract -> ensures-name prefixes not assumed
@@ -658,6 +659,15 @@ class Task:
         return self._assign([s.target], s.value, st)
 
     def st_Assign(self, s, st):
+        # empty container literals bound to a local whose sort the sidecar declares
+        if len(s.targets) == 1 and isinstance(s.targets[0], ast.Name) and s.targets[0].id in self.contract.local_sorts:
+            srt = parse_sort(self.contract.local_sorts[s.targets[0].id])
+            if isinstance(s.value, ast.Dict) and not s.value.keys and isinstance(srt, MapSort):
+                st.locals[s.targets[0].id] = map_empty(srt.key, srt.val)
+                return [Outcome(Outcome.NORMAL, st)]
+            if isinstance(s.value, ast.List) and not s.value.elts and isinstance(srt, SeqSort):
+                st.locals[s.targets[0].id] = seq_empty(srt.elem)
+                return [Outcome(Outcome.NORMAL, st)]
         return self._assign(s.targets, s.value, st)
 
     def _assign(self, targets, value, st):
@@ -716,6 +726,11 @@ class Task:
                 if e is not None:
                     res.append(Outcome(Outcome.RAISE, s2, exc=e))
                     continue
+                if isinstance(cont, VEmptyDict):
+                    if not (isinstance(idx, V) and isinstance(v, V)):
+                        raise Unsupported(f"dict of python-level values at line {t.lineno}")
+                    vs = self.opts_map_value_sort(t, v)
+                    cont = map_empty(idx.sort, vs)
                 if isinstance(cont, V) and isinstance(cont.sort, MapSort):
                     newm = map_set(cont, idx, v)
                     res += self.assign_to(t.value, newm, s2)
@@ -723,6 +738,14 @@ class Task:
                     raise Unsupported(f"subscript store at line {t.lineno}")
             return res
         raise Unsupported(f"assignment target {type(t).__name__}")
+
+    def opts_map_value_sort(self, t, v):
+        """value sort of a dict literal that starts empty: from the loop/contract declaration if given, else the first value"""
+        name = t.value.id if isinstance(t.value, ast.Name) else None
+        decl = self.contract.local_sorts.get(name) if name else None
+        if decl:
+            return parse_sort(decl).val
+        return v.sort
 
     def unpack(self, v, n, node):
         if isinstance(v, VPyTuple):
@@ -970,8 +993,9 @@ class Task:
             called = self.dry_run_frame(node, st, it)
         except (Unsupported, SortMismatch):
             called = None
-        ls = spec.get("local_sorts", {})
-        for name in assigned:
+        ls = dict(self.contract.local_sorts)
+        ls.update(spec.get("local_sorts", {}))
+        for name in assigned | {n for n in ls if n in st.locals}:
             if name in ls:
                 st.locals[name] = parse_sort(ls[name]).fresh(f"loop.{name}")
             elif name in st.locals and isinstance(st.locals[name], V):
@@ -1642,6 +1666,17 @@ class Task:
                     res.append((s2, None, e)); continue
                 res += self.call_contract(s2, self.ctx.contracts[cn], None, vals, {}, node)
             return res
+        if isinstance(f, ast.Attribute) and f.attr in ("startswith", "endswith") and len(node.args) == 1 and not node.keywords:
+            res = []
+            for s2, vals, e in self.ev_many([f.value, node.args[0]], st):
+                if e is not None:
+                    res.append((s2, None, e)); continue
+                a, b = vals
+                if isinstance(a, V) and a.sort == STR and isinstance(b, V) and b.sort == STR:
+                    res.append((s2, vbool(z3.PrefixOf(b.z, a.z) if f.attr == "startswith" else z3.SuffixOf(b.z, a.z)), None))
+                else:
+                    raise Unsupported(f".{f.attr} on {a} (line {node.lineno})")
+            return res
         if isinstance(f, ast.Attribute) and f.attr == "get" and 1 <= len(node.args) <= 2 and not node.keywords:
             r = self.try_dict_get(node, st)
             if r is not None:
@@ -1996,6 +2031,8 @@ class Task:
                 for s3, tv, e3 in self.ev(tn, s2):
                     if e3 is not None:
                         res.append((s3, None, e3)); continue
+                    if isinstance(tv, VBuiltin):
+                        res.append((s3, vbool(ISINSTANCE(obj.z, z3.Const(f"class.builtins.{tv.name}", Ref))), None)); continue
                     if isinstance(tv, V) and isinstance(tv.sort, RefSort):
                         res.append((s3, vbool(ISINSTANCE(obj.z, tv.z)), None))
                     elif isinstance(tv, VDotted):
@@ -2290,6 +2327,24 @@ class SpecEval:
         if name == "has_attr":
             return self.t.read_field(self.st, self.ev(n.args[0]), "?" + n.args[1].value,
                                      self.old[0] if (self.in_old and self.old) else None)
+        if name == "wf_map":
+            m = self.ev(n.args[0])
+            dom, vals, keys = map_parts(m)
+            k = z3.Const(fresh_name("wfk"), m.sort.key.comps()[0])
+            i, j = z3.Int(fresh_name("wfi")), z3.Int(fresh_name("wfj"))
+            klen, karr = keys.comps[0], keys.comps[1]
+            return vbool(z3.And(klen >= 0,
+                                z3.ForAll([i, j], z3.Implies(z3.And(0 <= i, i < j, j < klen), z3.Select(karr, i) != z3.Select(karr, j))),
+                                z3.ForAll([i], z3.Implies(z3.And(0 <= i, i < klen), z3.Select(dom, z3.Select(karr, i))), patterns=[z3.Select(karr, i)]),
+                                z3.ForAll([k], z3.Implies(z3.Select(dom, k), z3.Exists([i], z3.And(0 <= i, i < klen, z3.Select(karr, i) == k))), patterns=[z3.Select(dom, k)])))
+        if name == "startswith":
+            a, b = self.ev(n.args[0]), self.ev(n.args[1])
+            return vbool(z3.PrefixOf(b.z, a.z))
+        if name == "isinstance":
+            a, b = self.ev(n.args[0]), self.ev(n.args[1])
+            return vbool(ISINSTANCE(a.z, b.z))
+        if name == "is_type":
+            return vbool(ISINSTANCE(self.ev(n.args[0]).z, z3.Const("class.builtins.type", Ref)))
         if name == "cast":
             o = self.ev(n.args[0])
             return V(RefSort(n.args[1].value), o.comps)
